@@ -226,7 +226,7 @@ class Engine:
     # ---- impl resolution from "impl at file:line"
     def build_impls(s):
         cache = {}
-        for name, f in list(s.fns.items()) + [(k, v) for k, v in s.consts.items() if isinstance(v, Fn)]:
+        for name, f in list(s.fns.items()) + list(s.consts.items()):
             m = re.match(r'^(?:(.*)::)?<impl at ([^:]+):(\d+):\d+: \d+:\d+>::(\w+)$', name)
             if not m:
                 continue
@@ -563,6 +563,15 @@ class Engine:
                 if len(outs) == 1 and outs[0][0] == 'ret':
                     return outs[0][1]
             raise Unsupported('assoc const ' + t2)
+        m = re.match(r'^(?:[a-z_0-9]+::)*([A-Z]\w*)(?:::<.*?>)?::([A-Z][A-Z0-9_]*)$', t2) or re.match(r'^(?:[a-z_0-9]+::)*([A-Z]\w*)(?:::<.*?>)?::([A-Z][A-Z0-9_]*)$', txt)
+        if m:       # inherent associated const:  Type::<..>::NAME
+            c = s.impls.get((None, m.group(1), m.group(2)))
+            if isinstance(c, tuple):
+                return s.const(c[1], sub, st)
+            if isinstance(c, Fn):
+                outs = list(s.run(c, [], sub, State(z3.BoolVal(True), st.mem if st else None)))
+                if len(outs) == 1 and outs[0][0] == 'ret':
+                    return outs[0][1]
         m = re.match(r'^(?:[\w]+::)*(\w+)::(\w+)$', txt)
         if m and m.group(1)[0].isupper() and m.group(2)[0].isupper():
             return mk_enum(m.group(1), m.group(2))
@@ -615,6 +624,11 @@ class Engine:
             if opn == 'Neg':
                 return -a[0]
             if opn == 'PtrMetadata':
+                if isinstance(a[0], LRef):          # unsized view of a local array: its length
+                    arr = s.deref_local(st, a[0])
+                    if isinstance(arr, Agg):
+                        return BV(len(arr.fields), 64)
+                    raise Unsupported('metadata of a local reference')
                 return a[0].meta
             x, y = a
             if isinstance(x, Fat):
@@ -840,6 +854,35 @@ class Engine:
             if r.disc == 'Ok':
                 return R(mk_enum('ControlFlow', 'Continue', r.payload['Ok']))
             return R(mk_enum('ControlFlow', 'Break', [mk_enum('Result', 'Err', r.payload['Err'])]))
+        if re.match(r'^<Option<.*> as Try>::branch$', c):
+            o = args[0]
+            if not isinstance(o.disc, str):
+                raise Unsupported('Try::branch on symbolic option')
+            if o.disc == 'Some':
+                return R(mk_enum('ControlFlow', 'Continue', o.payload['Some']))
+            return R(mk_enum('ControlFlow', 'Break', [mk_enum('Option', 'None')]))
+        if re.match(r'^<Option<.*> as FromResidual<.*>>::from_residual$', c):
+            return R(mk_enum('Option', 'None'))
+        m = re.match(r'^core::num::<impl (u16|u32|u64)>::to_le_bytes$', c)
+        if m:
+            v = args[0]
+            n = v.size() // 8
+            return R(Agg('[u8;%d]' % n, tuple(z3.Extract(8 * i + 7, 8 * i, v) for i in range(n))))
+        m = re.match(r'^<\[u8\] as PartialEq<\[u8; (\d+)\]>>::eq$', c)
+        if m:
+            n = int(m.group(1))
+            sl = args[0]
+            arr = args[1]
+            if isinstance(arr, LRef):
+                arr = s.deref_local(st, arr)
+            if not isinstance(sl, Fat) or not isinstance(arr, Agg):
+                raise Unsupported('slice == array with unmodelled operands')
+            st.loads.append((sl.addr, n, 'slice == array'))
+            same = z3.And([z3.Select(st.mem, sl.addr + BV(i, 64)) == arr.fields[i] for i in range(n)] + [sl.meta == n])
+            return R(b2(same))
+        m = re.match(r'^core::num::<impl (u8|u16|u32|u64|usize)>::wrapping_neg$', c)
+        if m:
+            return R(-args[0])
         if re.match(r'^<Result<.*> as FromResidual<.*>>::from_residual$', c):
             return R(mk_enum('Result', 'Err', args[0].payload['Err']))
         if re.match(r'^Option::<.*>::ok_or::<.*>$', c):
@@ -1193,7 +1236,9 @@ class Engine:
         if s.feasible(pc):
             st2 = st.fork(pc)
             win = Fat(sl.addr + i, n)
-            for o in s.run(cf, [UNIT, win], sub, st2, depth + 1):
+            eoid = next(s.oid)
+            st2.heap[eoid] = args[1]                  # the closure (with its captures) is called through `&mut self`
+            for o in s.run(cf, [LRef(eoid, ()), win], sub, st2, depth + 1):
                 if o[0] == 'panic':
                     out.append(o)
                     continue
